@@ -11,7 +11,7 @@ from fractions import Fraction
 
 VAR_NAMES = ["x", "y", "z", "w", "V_m", "g_ex", "I_syn", "u1", "h", "r_2"]
 PAR_NAMES = ["tau", "a", "b0", "C_m", "k_1", "E_L", "tau_s", "q"]
-DYADIC = [1, -1, 2, -2, 3, -3, Fraction(1, 2), Fraction(-1, 2), Fraction(1, 4), Fraction(-3, 2), Fraction(5, 8), Fraction(-3, 4), 5, -7]
+DYADIC = [1, -1, 2, -2, 3, -3, Fraction(1, 2), Fraction(-1, 2), Fraction(1, 4), Fraction(-3, 2), Fraction(5, 8), Fraction(-3, 4), 5, -7, 10, 100, -10, 20, 1000, 11]
 
 
 def offsets(system):
@@ -36,7 +36,7 @@ def atom_str(system, a, marker="'"):
     if a[0] == "p":
         return system["params"][a[1]]
     if a[0] == "t":
-        return "t"
+        return system.get("time_symbol", "t")
     if a[0] == "f":
         return system["funs"][a[1]]["expr"]
     raise ValueError(a)
@@ -114,7 +114,9 @@ def render(system, style=0, rng=None, options=None, parameters=None):
         dyn.append(d)
     ind = {"dynamics": dyn}
     if options:
-        ind["options"] = options
+        ind["options"] = dict(options)
+    if system.get("time_symbol", "t") != "t":
+        ind.setdefault("options", {})["input_time_symbol"] = system["time_symbol"]
     if parameters is not None:
         ind["parameters"] = parameters
     return ind
@@ -157,7 +159,7 @@ def sympy_point(system, pt, marker="__d", extra=None):
         d[sympy.Symbol(var_name(system, gi, marker))] = sympy.Rational(pt[("v", gi)].numerator, pt[("v", gi)].denominator)
     for k, nm in enumerate(system["params"]):
         d[sympy.Symbol(nm)] = sympy.Rational(pt[("p", k)].numerator, pt[("p", k)].denominator)
-    d[sympy.Symbol("t")] = sympy.Rational(pt[("t",)].numerator, pt[("t",)].denominator)
+    d[sympy.Symbol(system.get("time_symbol", "t"))] = sympy.Rational(pt[("t",)].numerator, pt[("t",)].denominator)
     if extra:
         d.update(extra)
     return d
@@ -271,6 +273,8 @@ def gen_system(rng, max_entries=4, kinds=("lin", "lin", "off", "nonlin", "time",
     for i in range(m):
         entries.append({"name": names[i], "order": rng.choice(allow_order), "kind": "ode"})
     system = {"entries": entries, "params": params, "funs": []}
+    if "time" in kinds and rng.random() < 0.3:
+        system["time_symbol"] = rng.choice(["T", "time_", "s"])
     offs, n = offsets(system)
     for i, e in enumerate(entries):
         kind = rng.choice(kinds)
@@ -420,4 +424,7 @@ def render_spelled(system, style, rng, entry_perm=None):
         else:
             d = {"expression": "%s = %s" % (e["name"], e["fexpr"])}
         dyn.append(d)
-    return {"dynamics": dyn}
+    ind = {"dynamics": dyn}
+    if system.get("time_symbol", "t") != "t":
+        ind["options"] = {"input_time_symbol": system["time_symbol"]}
+    return ind
